@@ -234,12 +234,72 @@ pub fn c06(sc: &Scenario, rr: &RunResult) -> Vec<Violation> {
 // C17 watermark progress
 // ------------------------------------------------------------------------------------------
 
+/// `replay` re-feeds its input in every round exactly as it received it in the first one - data
+/// and watermarks, per replica, in the same order. Observed right behind the Replay operator
+/// (loop-head probe) of top-level replay loops. `only_watermarks`: compare the watermark
+/// subsequences only (C17: watermark progress must not be withheld in later rounds).
+pub fn replay_refeeds(prop: &str, sc: &Scenario, rr: &RunResult, only_watermarks: bool) -> Vec<Violation> {
+    let mut out = vec![];
+    if !completed(rr) {
+        return out;
+    }
+    for m in rr.meta.iter().filter(|m| m.pos == "loophead" && m.path.len() == 1) {
+        let Some(l) = crate::oracle::loop_at(&sc.steps, &m.path) else { continue };
+        if l.iterate {
+            continue;
+        }
+        for c in coords_of(rr, m.id) {
+            let hist = &rr.rec.probes[&(m.id, c)];
+            let mut rounds: Vec<Vec<(u8, u64, i64)>> = vec![vec![]];
+            let mut closed = 0usize;
+            for r in hist {
+                match r.kind {
+                    K_FAR => {
+                        rounds.push(vec![]);
+                        closed += 1;
+                    }
+                    K_ITEM | K_TS if !only_watermarks => rounds.last_mut().unwrap().push((r.kind, r.id, r.ts)),
+                    K_WM => rounds.last_mut().unwrap().push((r.kind, 0, r.ts)),
+                    _ => {}
+                }
+            }
+            rounds.truncate(closed);
+            for (k, r) in rounds.iter().enumerate().skip(1) {
+                if r != &rounds[0] {
+                    let wm = |v: &Vec<(u8, u64, i64)>| v.iter().filter(|x| x.0 == K_WM).map(|x| x.2).collect::<Vec<_>>();
+                    let (w0, wk) = (wm(&rounds[0]), wm(r));
+                    let class = if w0 != wk { "replay-watermarks-differ" } else { "replay-input-differs" };
+                    out.push(viol(
+                        prop,
+                        class,
+                        format!(
+                            "replay loop at step {} replica {:?}: round {} is fed {} elements / watermarks {:?}, the first round {} elements / watermarks {:?}",
+                            m.path[0],
+                            c,
+                            k + 1,
+                            r.len() - wk.len(),
+                            &wk[..wk.len().min(12)],
+                            rounds[0].len() - w0.len(),
+                            &w0[..w0.len().min(12)]
+                        ),
+                    ));
+                    return out;
+                }
+            }
+        }
+    }
+    out
+}
+
 pub fn c17(sc: &Scenario, rr: &RunResult) -> Vec<Violation> {
     let mut out = vec![];
     if !completed(rr) {
         return out;
     }
-    let _ = sc;
+    out.extend(replay_refeeds("C17", sc, rr, true));
+    if !out.is_empty() {
+        return out;
+    }
     for m in rr.meta.iter().filter(|m| m.pos == "start") {
         for c in coords_of(rr, m.id) {
             let hist = &rr.rec.probes[&(m.id, c)];
